@@ -127,7 +127,8 @@ def check_packing(ctx, spec, df, X, npart, p, tag, baseline):
         tb = traceback.format_exc()
         name = type(e).__name__
         key = keys_of(df, p)
-        tied = len(set(key.values())) < len(key)
+        # Dask's limit: equal keys cannot be split, nor k distinct keys into more than k parts
+        tied = len(set(key.values())) < len(key) or len(set(key.values())) < req
         if len(set(key.values())) <= 1 and req > 1:
             # all rows share one key and several partitions were requested: nothing claimed
             rep.count('unclaimed:' + name)
